@@ -994,8 +994,12 @@ class Canon:
             if fn and fn in self.c.hir and depth < self.max_depth and n.get("res") in ("fn", "assocfn"):
                 ch = self.c.hir[fn]
                 body = ch.get("body", {})
-                if body.get("k") == "block" and not body.get("stmts") and body.get("tail") is not None and len(ch.get("params", [])) == len(n.get("args", [])):
+                pnames = {p.get("name") for p in ch.get("params", []) if p.get("k") == "bind"}
+                straight = (getattr(self, "inline_lets", False) or not body.get("stmts")) and all(st.get("k") == "let" and st.get("init") is not None and not any(b.get("k") == "bind" and b["name"] in pnames for b, _ in walk(st["pat"]))
+                               for st in body.get("stmts", [])) if body.get("k") == "block" else False
+                if body.get("k") == "block" and straight and body.get("tail") is not None and len(ch.get("params", [])) == len(n.get("args", [])):
                     sub = Canon(self.c, ch, self.max_depth)
+                    sub.inline_lets = getattr(self, "inline_lets", False)
                     env2 = {}
                     for p, a in zip(ch["params"], n["args"]):
                         if p.get("k") == "bind":
